@@ -8,6 +8,8 @@ import Driver.Util
 /-! C02 sub-engines of `hl`: `pdshmodel hl xcl` (model of pdsh's exclusion / filter path) and
     `pdshmodel hl xspec` (the specification).  One case = the lines up to `end`:
       d2 0|1                       D2 switch as probed on the real pdsh by the check
+      br2 0|1                      F02-2BR switch, probed the same way
+      env NAME                     the WCOLL environment variable names this file
       file NAME EXPR…              a readable ^file and the expressions it holds
       re PAT HOST 0|1              regex oracle table (libc regcomp/regexec)
       badre PAT                    regcomp refuses PAT
@@ -19,6 +21,8 @@ open PdshVerif PdshVerif.Hostlist PdshVerif.Opt
 
 structure Acc where
   d2 : Bool := false
+  br2 : Bool := false
+  wenv : Option Str := none
   files : List (Str × List Str) := []
   tab : Std.HashMap (String × String) Bool := {}
   bad : List Str := []
@@ -48,6 +52,8 @@ def decodeAll (xs : List String) : Option (List Str) := xs.mapM dec
 def absorb (a : Acc) (ws : List String) : Option Acc :=
   match ws with
   | ["d2", v] => some { a with d2 := v == "1" }
+  | ["br2", v] => some { a with br2 := v == "1" }
+  | ["env", n] => (dec n).map fun n => { a with wenv := some n }
   | "file" :: name :: exprs =>
     match dec name, decodeAll exprs with
     | some n, some es => some { a with files := a.files ++ [(n, es)] }
@@ -74,9 +80,9 @@ def stepModel (a : Acc) (line : String) : Acc × String :=
   | ["end"] =>
     if a.err then ({}, "bad-case")
     else
-      let cfg : Cfg := { Cfg.probed with fixPushLoop := a.d2 }
+      let cfg : Cfg := { Cfg.probed with fixPushLoop := a.d2, fix2Br := a.br2 }
       let env : Exclude.Env := { files := a.files, rematch := lookupTab a, badre := fun p => a.bad.contains p }
-      ({}, resString (Exclude.cliFinal cfg env a.evs.reverse))
+      ({}, resString (Exclude.cliFinalW cfg env a.wenv a.evs.reverse))
   | ["cfg"] => (a, Cfg.probed.describe)
   | ws =>
     match absorb a ws with
